@@ -405,31 +405,37 @@ def _toposort(dsk, keys=None, returncycle=False, dependencies=None):
                     if nxt in seen:
                         # Cycle detected!
                         # Let's report only the nodes that directly participate in the cycle.
-                        # We use `priorities` below to greedily construct a short cycle.
-                        # Shorter cycles may exist.
-                        priorities = {}
+                        # We look for a shortest cycle among the nodes in play that
+                        # closes with the edge ``prev -> nxt``.
                         prev = nodes[-1]
-                        # Give priority to nodes that were seen earlier.
+                        inplay = {nxt}
                         while nodes[-1] != nxt:
-                            priorities[nodes.pop()] = -len(priorities)
-                        priorities[nxt] = -len(priorities)
+                            inplay.add(nodes.pop())
+                        nodes.pop()
                         # We're going to get the cycle by walking backwards along dependents,
                         # so calculate dependents only for the nodes in play.
-                        inplay = set(priorities)
                         dependents = reverse_dict(
                             {k: inplay.intersection(dependencies[k]) for k in inplay}
                         )
-                        # Begin with the node that was seen twice and the node `prev` from
-                        # which we detected the cycle.
-                        cycle = [nodes.pop()]
-                        cycle.append(prev)
-                        while prev != cycle[0]:
-                            # Greedily take a step that takes us closest to completing the cycle.
-                            # This may not give us the shortest cycle, but we get *a* short cycle.
-                            deps = dependents[cycle[-1]]
-                            prev = min(deps, key=priorities.__getitem__)
-                            cycle.append(prev)
-                        cycle.reverse()
+                        # Breadth-first search from ``prev`` along dependents until we are
+                        # back at ``nxt``, the node that was seen twice. ``nxt`` is an
+                        # ancestor of ``prev`` on the current path, so this terminates.
+                        parent = {prev: None}
+                        frontier = [prev]
+                        while nxt not in parent:
+                            new_frontier = []
+                            for node in frontier:
+                                for dep in dependents[node]:
+                                    if dep not in parent:
+                                        parent[dep] = node
+                                        new_frontier.append(dep)
+                            frontier = new_frontier
+                        cycle = []
+                        node = nxt
+                        while node is not None:
+                            cycle.append(node)
+                            node = parent[node]
+                        cycle.append(nxt)
 
                         if returncycle:
                             return cycle
